@@ -49,6 +49,10 @@ What is *as the code really behaves* (BTrees 6.5, ZODB 6.3, measured):
   structurally (it merges more often than BTrees do; only *real success ⇒ model success* is
   needed and checked).
 
+`commitSecondT` takes the first committer's heap as the committed state, i.e. it presupposes that
+everything a transaction changed is registered – true for the unchanged code (`TSound`), not for
+the two slips below, which exist for C09's negative theorems only.
+
 `TCfg.addReassign = false` / `massRootOnly = true` are the two seeded slips of C09 (`_add_wordinfo`
 updating a stored dict in place without the re-assignment; `_mass_add_wordinfo` flagging the tree's
 root instead of storing the posting again): they exist to state the negative theorems.
